@@ -805,3 +805,68 @@ func ruleC07_6(c *Ctx) {
 		}
 	}
 }
+
+// R-C17-6: scanner / matcher agreement on escapes: scanChunk skips the character after a backslash regardless of
+// whether it is inside a character class (matchChunk / getEsc honour escapes inside classes, so a scanner that does
+// not would cut a chunk in the middle of a class).
+func init() {
+	if p := registry["C17"]; p != nil {
+		p.Rules = append(p.Rules, Rule{ID: "R-C17-6", Doc: "scanChunk honours a backslash escape inside and outside character classes", Min: 1, Run: ruleC17_6})
+		p.Explanation += " (R-C17-6) scanner/matcher agreement: in scanChunk the block that skips the character following a backslash is not control-dependent on the in-class state, as matchChunk/getEsc honour escapes inside classes."
+	}
+}
+
+func ruleC17_6(c *Ctx) {
+	const R = "R-C17-6"
+	f := c.lookup("in_toto.scanChunk")
+	if f == nil {
+		c.undecided(R, "in_toto.scanChunk", "anchor", 0, "not found")
+		return
+	}
+	// the in-class state: phi named inrange
+	var inrange []*ssa.Phi
+	for _, b := range f.Blocks {
+		for _, in := range b.Instrs {
+			if ph, ok := in.(*ssa.Phi); ok && ph.Comment == "inrange" {
+				inrange = append(inrange, ph)
+			}
+		}
+	}
+	// comparison with '\\'
+	found := false
+	for _, b := range f.Blocks {
+		for _, in := range b.Instrs {
+			bo, ok := in.(*ssa.BinOp)
+			if !ok || bo.Op != token.EQL {
+				continue
+			}
+			k, isK := constInt(bo.Y)
+			if !isK || k != '\\' {
+				continue
+			}
+			found = true
+			// blocks where the escape is being handled: bo known true
+			okIndep := true
+			for _, hb := range f.Blocks {
+				if !c.condAt(bo, true, hb) {
+					continue
+				}
+				for _, ph := range inrange {
+					if c.condAt(ph, true, hb) || c.condAt(ph, false, hb) {
+						okIndep = false
+					}
+				}
+			}
+			// and the comparison itself is not reached only under a class-state condition
+			for _, ph := range inrange {
+				if c.condAt(ph, true, bo.Block()) || c.condAt(ph, false, bo.Block()) {
+					okIndep = false
+				}
+			}
+			c.check(okIndep, R, fname(f), "escape handling is independent of the in-class state", bo.Pos(), "the backslash case is reached and handled whether or not the scan is inside [...]", "scanChunk honours a backslash only outside (or only inside) a character class while matchChunk/getEsc honour it inside classes: an escaped ']' followed by '*' in a class splits the chunk in the middle of the class")
+		}
+	}
+	if !found {
+		c.bad(R, fname(f), "backslash handling", f.Pos(), "scanChunk does not look for backslash escapes")
+	}
+}
